@@ -321,7 +321,9 @@ Definition judge_seq (cs : list call) (out : J) : option (bool * bool) :=
             blist_eqb (panics_of cs empty_state) jpan in
           let prop :=
             forallb (fun n => zmem n keys) names &&
-            Bool.eqb el (has_start && has_end) &&
+            (* promised: both stamps recorded -> an elapsed time is available (the converse is
+               the model's business: `agree`) *)
+            (if has_start && has_end then el else true) &&
             (if el then zmem exec_time_name keys else true) &&
             forallb (fun n => if only_incr n cs
                               then match lookup n snap with
@@ -421,10 +423,17 @@ Definition judge_transparent (regs : list (name * metric)) (errs : list Z) (pois
                         end
                     | _, _ => false
                     end in
+                  (* the property speaks about SUCCESSFUL runs only: after one, the elapsed time is
+                     non-negative, at least what the run provably took and not larger than the
+                     harness's own window around that run.  What a failed run leaves behind
+                     (a fresh start stamp, stale stamps of an earlier run, nothing) and where in
+                     run_collect the start stamp is taken are pinned by `agree` only *)
                   let time_prop :=
                     match jel, jms with
                     | JN, JN => true
-                    | JI d, JI ms => (ms =? d / 1000000) && (lo_ms <=? ms) && (d <=? hi_last)
+                    | JI d, JI ms =>
+                        (0 <=? d) && (ms =? d / 1000000) &&
+                        (if last_ok then (lo_ms <=? ms) && (d <=? hi_last) else true)
                     | _, _ => false
                     end in
                   let agree :=
@@ -437,7 +446,7 @@ Definition judge_transparent (regs : list (name * metric)) (errs : list Z) (pois
                   let prop :=
                     outcomes_eqb ws wos &&
                     (if existsb is_ok ws then el else true) &&
-                    (if last_ok then el && elpos else true) &&
+                    (if last_ok then el else true) &&
                     (if el then zmem exec_time_name keys else true) &&
                     forallb (fun n => zmem n keys) names && got && taken && gone && time_prop in
                   Some (agree, prop)
